@@ -93,6 +93,7 @@ def run(model, res, tier):
     res.rule('R1', 'kernel table: constants by rank, native comparison on the right operand expressions otherwise')
     res.rule('R2', 'trichotomy and derived operators: <, =, >, <=, >=, <> true in exactly the right worlds')
     res.rule('R3', 'the comparison path keeps no cache or shared state')
+    res.rule('R4', 'dates are ordered through one exact serial map: who-may-convert and the piecewise-affine converter rules (shared with C13.R1, C13.R2)')
     res.assumptions += ['Python\'s native order on numbers (bool excluded), on strings and on serials is a total order (no NaN)',
                         'date converters are summarised as serial(x) on date-time input (validated by C13)']
     res.trusted += ['hxsa abstract interpreter (absint.py) and its builtin models (absmodels.py)', 'CPython ast']
@@ -129,6 +130,11 @@ def run(model, res, tier):
     purity.check_region(res, c, 'R3', None, region, 'a comparison')
     purity.check_memo(res, c, 'R3', region, 'a function on the comparison path')
     res.analysed['functions on the comparison path'] = len(region)
+    from . import c13
+    um = [mm for mm in model.modules.values() if 'serialize_date' in mm.functions and 'parse_date' in mm.functions]
+    if um:
+        H.borrow(res, 'R4', 'date conversion authority', lambda tmp: c13._r1(model, tmp, c, um[-1]))
+        H.borrow(res, 'R4', 'date converters', lambda tmp: c13._r2(model, tmp, c, um[-1]))
 
 
 def _check_cell(res, acts, ta, tb, cell):
